@@ -58,6 +58,9 @@ def required(tier):
            'descent:mass-ignored', 'mass:min', 'mass:max', 'ptf:row-reproduced',
            'load-refused:missing-row', 'load-refused:fourth-mass', 'load-refused:duplicate-row',
            'load-refused:row-replaced-by-a-copy-of-another',
+           'load-refused:missing-row:per-phase-frames',
+           'load-refused:row-replaced-by-a-copy-of-another:per-phase-frames',
+           'table:built-from-per-phase-frames',
            'table:sample', 'table:generated', 'loaded:from-toml-file',
            'two-tables:same-grid-other-values', 'state-object:reused-across-models',
            'threads:four-evaluating-one-model',
@@ -69,6 +72,19 @@ def required(tier):
 
 def rel_eq(a, b, tol=1e-9):
     return abs(a - b) <= tol * max(abs(a), abs(b)) + 1e-12
+
+
+def table_from_phase_frames(rows):
+    import pandas as pd
+    from AEIC.performance.models.legacy import PerformanceTable
+    cols = ['fuel_flow', 'fl', 'tas', 'rocd', 'mass']
+    parts = [pd.DataFrame([r for r in rows if sel(r[3])], columns=cols)
+             for sel in (lambda x: x > 0, lambda x: x == 0, lambda x: x < 0)]
+    df = pd.concat([p_ for p_ in parts if len(p_)])
+    return PerformanceTable(df=df, fl=sorted(df.fl.unique().tolist()),
+                            tas=sorted(df.tas.unique().tolist()),
+                            rocd=sorted(df.rocd.unique().tolist()),
+                            mass=sorted(df.mass.unique().tolist()))
 
 
 def run_shard(spec, rec):
@@ -440,6 +456,42 @@ def run_shard(spec, rec):
                         raise
                     except Exception:  # noqa: BLE001
                         rec.cls(f'load-refused:{kind}')
+                    # the same rows handed to the table object directly, as one data frame per
+                    # phase glued together (pd.concat): the row labels of the pieces repeat
+                    rec.ev()
+                    try:
+                        table_from_phase_frames(bad)
+                        raise Mismatch('an incomplete / over-complete table was accepted when the '
+                                       'table object is built from per-phase data frames '
+                                       '(repeated row labels)', {'kind': kind, 'phase': ph, **case})
+                    except Mismatch:
+                        raise
+                    except Exception:  # noqa: BLE001
+                        rec.cls(f'load-refused:{kind}:per-phase-frames')
+                if k % 4 == 0:
+                    rec.ev()
+                    good_rows = perfgen.table_rows(t)
+                    try:
+                        tb = table_from_phase_frames(good_rows)
+                    except Exception as e:  # noqa: BLE001
+                        raise Mismatch('a complete table built from per-phase data frames '
+                                       '(repeated row labels) was refused',
+                                       {'error': f'{type(e).__name__}: {str(e)[:200]}', **case})
+                    from AEIC.performance.models.legacy import ROCDFilter
+                    for ph_, flt in (('climb', ROCDFilter.POSITIVE), ('cruise', ROCDFilter.ZERO),
+                                     ('descent', ROCDFilter.NEGATIVE)):
+                        f_ = rng.choice(t[ph_]['fls'])
+                        m_ = rng.choice(t[ph_]['masses'])
+                        got = tb.interpolate(AircraftState(altitude=f_ * FL_TO_METERS,
+                                                           aircraft_mass=m_), flt)
+                        want = node_vals(t, ph_, f_, m_)
+                        g3 = (got.true_airspeed, got.rate_of_climb, got.fuel_flow)
+                        if not all(rel_eq(a, b) for a, b in zip(g3, want)):
+                            raise Mismatch('tabulated node not reproduced by a table built from '
+                                           'per-phase data frames (repeated row labels)',
+                                           {'phase': ph_, 'fl': f_, 'mass': m_, 'got': list(g3),
+                                            'expected': list(want), **case})
+                    rec.cls('table:built-from-per-phase-frames')
                 # ---- (e) PTF fidelity ----------------------------------------------------------------
                 text, sp = perfgen.gen_ptf(rng)
                 f = hdir / f'x{k}.PTF'
